@@ -56,6 +56,8 @@ type Exec struct {
 	splitLoop    ast.Node
 	loopExits    []*State
 	curWatch     []watchTerm
+	owned        map[string]types.Type
+	escaped      map[string]bool
 }
 
 type deadPanic struct{}
@@ -525,6 +527,7 @@ func (x *Exec) returnStmt(s *ast.ReturnStmt, st *State) {
 			vals = append(vals, x.convertTo(v, fr.results[i].Type()))
 		}
 	}
+	st.retAt = s
 	x.doReturn(st, vals)
 }
 
@@ -567,7 +570,7 @@ func (x *Exec) doReturn(st *State, vals []*Val) {
 func (x *Exec) goStmt(s *ast.GoStmt, st *State) {
 	// evaluate arguments (for their obligations), check spawn preconditions if any
 	for _, a := range s.Call.Args {
-		x.expr(a, st)
+		x.escapes(x.expr(a, st))
 	}
 	if fn := x.calleeOf(s.Call); fn != nil {
 		if fi := x.e.byObj[fn.Origin()]; fi != nil {
@@ -616,6 +619,7 @@ func (x *Exec) readVar(st *State, obj types.Object) *Val {
 func (x *Exec) declareVar(st *State, obj types.Object, v *Val) {
 	if x.frame != nil && x.addrTaken(obj) {
 		ref := x.alloc(st, obj.Name())
+		x.own(ref, obj.Type())
 		st.cells[obj] = ref
 		x.writeThrough(st, obj.Type(), ref, v)
 		if x.assigned != nil {
